@@ -538,6 +538,10 @@ func (e *escaper) computeOutCtx(c context, t *template.Template) context {
 			err:   errorf(ErrOutputContext, t.Tree.Root, 0, "cannot compute output context for template %s", t.Name()),
 		}
 	}
+	if ok {
+		// Record the computed output context; escapeTemplateBody only stored the assumed one.
+		e.output[t.Name()] = c1
+	}
 	return c1
 }
 
